@@ -203,6 +203,20 @@ def _window_argtype_point(cfg):
                     continue
                 evals += 1
                 r = computers.call(obj.get_impulse_response, typ(width))
+                if route == "constructed" and tname == "int32":
+                    # once more with numpy's floating-point error state set to 'raise' by the caller
+                    with np.errstate(all="raise"):
+                        r2 = computers.call(_make_window(cfg).get_impulse_response, int(width))
+                    evals += 1
+                    if not (r2[0] == "ok" and np.shape(r2[1]) == np.shape(ref_r[1]) and np.allclose(
+                            r2[1], ref_r[1], rtol=1e-13, atol=1e-300, equal_nan=True)):
+                        viol.append(core.violation(
+                            dict(window=cfg["cls"], what="window_environment", env="errstate_all_raise",
+                                 exc=r2[1] if r2[0] != "ok" else None),
+                            "%r width %d under np.errstate(all='raise'): %s; in the default state the window has "
+                            "%d finite samples" % (cfg, width, str(r2[1:])[:120] if r2[0] != "ok" else "differs",
+                                                   len(ref_r[1])), dict(kind="argtype", cfg=cfg)))
+                        break
                 ok = r[0] == "ok" and np.shape(r[1]) == np.shape(ref_r[1]) and np.allclose(
                     r[1], ref_r[1], rtol=1e-13, atol=1e-300, equal_nan=True)
                 if not ok:
@@ -306,10 +320,50 @@ def _cs_point(pt, seed):
                                    inner="start_idx x dtype x shift -2D..2D x copy"))
 
 
+COPY_SPELLINGS = {"np.True_": lambda: np.True_, "1": lambda: 1, "array_element_true": lambda: np.array([True])[0],
+                  "np.False_": lambda: np.False_, "0": lambda: 0, "array_element_false": lambda: np.array([False])[0]}
+
+
+def _cs_spelling_point(pt, seed):
+    """flags and integers handed over in their numpy / int spellings: copy as np.True_ / 1 / an element
+    of a bool array (and the falsy counterparts), start_idx and dft_size as numpy integers: same result
+    as with Python True / False / int, input untouched whenever the flag is truthy"""
+    dft, n = pt
+    viol = []
+    sigs = set()
+    evals = 0
+    for start in (0, 1, dft - 1):
+        for dtype in CS_DTYPES:
+            for shift in (1, -1, dft // 2 + 1, dft + 3):
+                for sp, mk in COPY_SPELLINGS.items():
+                    for ints in ("int", "int32", "int64"):
+                        evals += 1
+                        conv = int if ints == "int" else getattr(np, ints)
+                        v = _cs_case(seed, conv(dft), n, conv(start), shift, mk(), dtype)
+                        for x in v:
+                            x["tags"].update(copy=bool(mk()), copy_spelling=sp, int_spelling=ints)
+                            x["case"].update(copy=bool(mk()), copy_spelling=sp, int_spelling=ints, dft=dft,
+                                             start=start)
+                            k = core.sig_hash(x["tags"])
+                            if k not in sigs:
+                                sigs.add(k)
+                                viol.append(x)
+    return core.result(viol, evals=evals, nontrivial_count=evals, obs=[dft, len(viol) == 0],
+                       sample=dict(dft_size=dft, segment_len=n, spellings=sorted(COPY_SPELLINGS)))
+
+
 def _cs_replay(case, seed):
     shift = case["shift"]
     if case.get("shift_type") in ("int32", "int64"):
         shift = getattr(np, case["shift_type"])(shift)
+    if case.get("copy_spelling"):
+        conv = int if case["int_spelling"] == "int" else getattr(np, case["int_spelling"])
+        v = _cs_case(seed, conv(case["dft"]), case["n"], conv(case["start"]), shift,
+                     COPY_SPELLINGS[case["copy_spelling"]](), case["dtype"])
+        for x in v:
+            x["tags"].update(copy=bool(case["copy"]), copy_spelling=case["copy_spelling"],
+                             int_spelling=case["int_spelling"])
+        return core.result(v)
     v = _cs_case(seed, case["dft"], case["n"], case["start"], shift, case["copy"], case["dtype"])
     for x in v:
         if case.get("large_dft"):
@@ -588,10 +642,15 @@ def subchecks(tier, seed):
                       copy=[True, False]),
             replay=lambda c: _cs_replay(c, seed)),
         core.SubCheck(
+            "circshift_spelling", [(d, n) for d in (8, 9, 16) for n in (1, 3, d)], lambda p: _cs_spelling_point(p, seed),
+            "circshift_fourier with copy spelled np.True_ / 1 / bool-array element (and falsy counterparts) and "
+            "start_idx / dft_size as numpy int32 / int64: shift-theorem oracle, input untouched when the flag is "
+            "truthy", replay=lambda c: _cs_replay(c, seed)),
+        core.SubCheck(
             "window_argtypes", _window_cfgs(tier), _window_argtype_point,
             "every window configuration x widths {0..70001} given as numpy int16/int32/int64/intp, and the "
-            "window object after copy.copy / deepcopy / pickle round trip: same samples (1e-13) as a fresh "
-            "object called with a Python int",
+            "window object after copy.copy / deepcopy / pickle round trip, and the call made under "
+            "np.errstate(all='raise'): same samples (1e-13) as a fresh object called with a Python int",
             axes=dict(widths=list(ARG_WIDTHS), arg=["int16", "int32", "int64", "intp"],
                       route=["copy", "deepcopy", "pickle"]),
             replay=lambda c: _window_argtype_point(c["cfg"])),
